@@ -76,6 +76,7 @@ def run(ctx, rep):
     rep.analysed(g)
     fa = L.fa
     bad = list(g.calls('info_set_bad')); ref = list(g.calls('info_make'))
+    bad = [b for b in bad if not C04.mark_justified_by_increment(L, g, b)] or bad
     rep.check(bool(bad) and all(all(t['silent_error_on_this_block'] == 1 or t['io_error_on_this_block'] == 1 for t in fa.at(b)) for b in bad), 'R-C15-2', 'bad mark only on silent or io error', bad[0].loc() if bad else g.file, '', function='state_scrub_process', construct='bad mark')
     rep.check(bool(ref) and all(all(t['silent_error_on_this_block'] == 0 and t['io_error_on_this_block'] == 0 and t['error_on_this_block'] == 0 for t in fa.at(r)) for r in ref), 'R-C15-2', 'refresh/clear only for stripes verified correct', ref[0].loc() if ref else g.file, '', function='state_scrub_process', construct='refresh')
     sil = L.flag_stores('silent_error_on_this_block', 1)
